@@ -1759,7 +1759,7 @@ class Pipeline:
 
         axes = self.mapspec_axes
         for name in func.mapspec.input_names:
-            if axis not in axes[name]:
+            if axis not in axes.get(name, ()):  # no entry: only ever indexed by `:`
                 continue
             if name in root_args:
                 if axis in axes[name]:
